@@ -5,7 +5,7 @@ import json, os, re
 VERIF = os.path.dirname(os.path.dirname(os.path.abspath(__file__)))
 base = os.path.join(VERIF, "seeded")
 EXTRA = {"c02c": ["C02", "C08", "C09"], "c09a": ["C09", "C10"], "c10b": ["C10", "C09"], "c07b": ["C07", "C15"],
-         "c08b": ["C08", "C09"]}
+         "c08b": ["C08", "C09"], "c16c": ["C16", "C03"], "c08c": ["C08", "C09"]}
 rows = []
 for n in sorted(os.listdir(base)):
     d = os.path.join(base, n)
